@@ -173,13 +173,22 @@ def run(cx):
     rb = [f for m, q, f in repo.functions({REL}) if f.name == "_read_branch"]
     cx.need(len(rb) == 1, "R06c", f"{REL}::_read_branch", "branch reader")
     nm = [v for _, v in assignments(rb[0], "not_merged_rcommits") if v is not None]
-    conj = []
-    if len(nm) == 1 and isinstance(nm[0], ast.DictComp) and len(nm[0].generators) == 1:
-        for i in nm[0].generators[0].ifs:
-            conj += [norm(e) for e, pol in split(i, True) if pol]
-    ok = len(nm) == 1 and isinstance(nm[0], ast.DictComp) and "rcommit.is_explicit" in conj and any(c.startswith("iid not in ") for c in conj) \
-        and norm(nm[0].generators[0].iter) == "all_commits_prev_branch.items()" and [norm(e) for e in nm[0].generators[0].target.elts] == ["iid", "rcommit"] \
-        and norm(nm[0].key) == "iid" and norm(nm[0].value) == "rcommit" and all(c == "rcommit.is_explicit" or c.startswith("iid not in ") for c in conj)
+    # {k: v for k, v in all_commits_prev_branch.items() if v.is_explicit and k not in <sets of this branch> ...}: the names of the
+    # comprehension's own variables and the spelling of the conjuncts are free
+    conj = set()
+    ok = len(nm) == 1 and isinstance(nm[0], ast.DictComp) and len(nm[0].generators) == 1
+    if ok:
+        g0 = nm[0].generators[0]
+        ok = isinstance(g0.target, ast.Tuple) and len(g0.target.elts) == 2 and all(isinstance(e, ast.Name) for e in g0.target.elts)
+    if ok:
+        from sa.guards import canon_test
+        k_, v_ = (e.id for e in g0.target.elts)
+        for i in g0.ifs:
+            conj |= canon_test(i)
+        explicit = ("expr", f"{v_}.is_explicit", "", True)
+        ok = explicit in conj and any(c[0] == "in" and c[1] == k_ and not c[3] for c in conj) \
+            and all(c == explicit or (c[0] == "in" and c[1] == k_ and not c[3]) for c in conj) \
+            and norm(g0.iter) == "all_commits_prev_branch.items()" and norm(nm[0].key) == k_ and norm(nm[0].value) == v_
     cx.ob("R06c", nm[0] if nm else rb[0], ok, "'not merged' = matching commits of the previous branch that are absent from this one" if ok else "'not merged' set filter altered")
     cx.guard(_r06e, cx, rb[0], nm[0] if nm else None, conj)
     # provenance of is_explicit
@@ -421,9 +430,9 @@ def _r06e(cx, rb, comp, conj):
     root = [st for st, v in assignments(rb, "result_accumdata") if v is not None]
     cx.need(len(root) == 1, "R06e", rb, "root accumulator of the commit walk (result_accumdata)")
     excl = []
-    for c in conj:
-        if c.startswith("iid not in "):
-            excl.append(c[len("iid not in "):])
+    for c in conj:      # canonical conjuncts of the filter: ("in", <key variable>, <set>, False) are the exclusions
+        if c[0] == "in" and not c[3]:
+            excl.append(c[2])
     hit = None
     cls_node = enclosing(rb, (ast.ClassDef,))
 
